@@ -240,6 +240,9 @@ class Runner:
         import itertools
         lrange = [1] if n == 1 else list(range(1, min(n, len(self.ref.enabled) + 2)))
         lags = list(itertools.islice(iter(sorted(itertools.product(lrange, repeat=len(wfl)), key=lambda t: (sum(t), t))), 3000)) if wfl else [()]
+        # a short count does not set errno and the C tests a stale one: both classifications are admissible (S = fatal, T = as EIO)
+        nshort = len([1 for w_ in wfl if w_[2][0] == 'S'])
+        lags = [(lg, st) for lg in lags for st in itertools.product('ST', repeat=nshort)]
         sm = r.summary()
         bailed_real = sm.get('exit') not in ('ok', 'error')
         real = {'fail': r.rc != 0, 'content': self.norm(br.ser_content(st2))}
@@ -248,9 +251,13 @@ class Runner:
         first = None
         base = ['syncw', '0', '0', str(iol), str(now), str(a.bs), str(a.np), '-1', '0', str(st1['blockmax']), 'M', str(n), '1'] + \
             br.ser_hashes() + br.ser_content(st1) + br.ser_parity() + fs_toks + ['Q', str(len(rq) // 3)] + rq
-        for lagc in lags:
+        for (lagc, stale) in lags:
             wq = []
+            si = 0
             for (wpos, wlev, wk), lg in zip(wfl, lagc):
+                if wk[0] == 'S':
+                    wk = stale[si] + wk[1:]
+                    si += 1
                 wq += [str(wpos), str(wlev), wk, str(lg)]
             lag = max(lagc) if lagc else 1
             req = base + ['W', str(len(wfl))] + wq
@@ -695,7 +702,11 @@ def main(tier, replay=None):
         ph = []
         for cache in ([caches[0], caches[-1]] if quick else caches):
             for (d, sub), lst in sorted(R.ref.files.items()):
-                for j in range(1, len(lst) + 1):
+                # the pre-hash phase reads the blocks that have no hash yet: the files the scan has just added (all blocks CHG)
+                fl_ = [f for f in R.ref.st1['disks'][d]['files'] if f['sub'].decode('latin1') == sub]
+                if not fl_ or not fl_[0]['blocks'] or any(b[0] != 'CHG' for b in fl_[0]['blocks']):
+                    continue
+                for j in range(1, len(fl_[0]['blocks']) + 1):
                     ph.append({'cache': cache, 'file': (d, sub), 'j': j})
         if gi == 0 or not quick:
             pmap(R.prehash_case, ph)
